@@ -162,7 +162,7 @@ Fixpoint eval_prim (p:prim) (args:list val) {struct p} : res val :=
   | PMk, l => Ok (VT l)
   | PProj i, [VT l] => nthv l i
   | PUpd i, [VT l; v] => l' <- upd l i v ;; Ok (VT l')
-  | PIdx, [VT l; VI _ z] => if Z.ltb z 0 then Panic else match nth_error l (Z.to_nat z) with Some v => Ok v | None => Panic end
+  | PIdx, [VT l; VI _ z] => if Z.ltb z 0 then Panic else if Z.ltb z (Z.of_nat (List.length l)) then match nth_error l (Z.to_nat z) with Some v => Ok v | None => Panic end else Panic
   | PLen, [VT l] => Ok (VI USize (Z.of_nat (List.length l)))
   | PSplat n, [v] => Ok (VT (repeat v n))
   | PSelect, [VB c; a; b] => Ok (sel_val c a b)
